@@ -104,6 +104,10 @@ func UnmarshalOrdered(data []byte) (*orderedmap.OrderedMap[string, any], error) 
 	if !ok {
 		return nil, fmt.Errorf("log line is not a JSON object")
 	}
+	// a log line is one JSON document: anything but white space after it makes the line malformed
+	if _, err := dec.Token(); err != io.EOF {
+		return nil, fmt.Errorf("unexpected text after the JSON document")
+	}
 	return m, nil
 }
 
